@@ -216,7 +216,7 @@ TRANSPARENT = {
     "std::boxed::Box::pin": 0,
     "std::sync::Arc::new": 0,
 }
-CLONES = {"std::clone::Clone::clone"}
+CLONES = {"std::clone::Clone::clone", "std::string::ToString::to_string", "std::borrow::ToOwned::to_owned"}
 
 
 class Body:
